@@ -195,6 +195,9 @@ class Canon:
             # s.partition(sep)[0] is s.split(sep)[0] (the text before the first separator)
             if idx == ('num', 0) and base[0] == 'call' and base[1][0] == 'attr' and base[1][2] == 'partition' and len(base[2]) == 1 and not base[3]:
                 base = ('call', ('attr', base[1][1], 'split'), base[2], ())
+            # s.split(sep, n)[0] with n >= 1 is s.split(sep)[0]
+            if idx == ('num', 0) and base[0] == 'call' and base[1][0] == 'attr' and base[1][2] == 'split' and len(base[2]) == 2 and not base[3] and base[2][1][0] == 'num' and isinstance(base[2][1][1], int) and base[2][1][1] >= 1:
+                base = ('call', ('attr', base[1][1], 'split'), (base[2][0],), ())
             if base[0] == 'attr' and base[2] == 'shape' and idx == ('num', 0):
                 return ('call', ('name', 'len'), (base[1],), ())          # x.shape[0] is len(x)
             return ('sub', base, idx)
@@ -271,7 +274,13 @@ class Canon:
 
     # ------------------------------------------------------------------
     def _call(self, e: ast.Call):
-        args = [self._t(a) for a in e.args]
+        args = []
+        for a in e.args:
+            ta = self._t(a)
+            if ta[0] == 'star' and isinstance(ta[1], tuple) and ta[1] and ta[1][0] in ('tuple', 'list'):
+                args.extend(ta[1][1:])       # f(*(a, b)) is f(a, b)
+            else:
+                args.append(ta)
         kws = tuple(sorted(((k.arg or '**'), self._t(k.value)) for k in e.keywords))
         f = e.func
         dotted = None
